@@ -1681,9 +1681,16 @@ def p_qualifierDeclaration(p):
 
     flavors = _build_flavors(p, flist, None, qualname)
 
-    p[0] = CIMQualifierDeclaration(
-        qualname, dt, value=value, is_array=is_array, array_size=array_size,
-        scopes=scopes, **flavors)
+    try:
+        p[0] = CIMQualifierDeclaration(
+            qualname, dt, value=value, is_array=is_array,
+            array_size=array_size, scopes=scopes, **flavors)
+    except (ValueError, TypeError, OverflowError) as exc:
+        raise MOFParseError(
+            msg=_format("Invalid default value {0!A} for qualifier "
+                        "declaration {1!A} of type {2!A}: {3}",
+                        value, qualname, dt, exc),
+            parser_token=p)
 
 
 def _build_flavors(p, flist, qualdecl, qualname):
